@@ -219,6 +219,8 @@ def main():
         if 'keep' not in opt:
             for w in workers:
                 w.teardown()
+            for d in glob.glob(BASE + '/w*/repo'):           # worktrees left by an earlier --keep run with more workers
+                subprocess.run(['git', '-C', '/repo', 'worktree', 'remove', '--force', d], capture_output=True)
             shutil.rmtree(BASE, ignore_errors=True)
     det = sum(1 for r in res.values() if r.get('detected_by'))
     print('done -> %s: %d mutants, %d detected, %d undetected (of which %d with a hung check)'
